@@ -564,7 +564,7 @@ def canon_impl(step, res, sids):
     if st >= 400 and body:
         o["errs"], _ = parse_errs(body)
     if kind in ("blobget", "mget") and st in (200, 206):
-        o["ctype"] = _h(res, "Content-Type")
+        o["ctype"] = _h(res, "Content-Type") if not step.get("noctype") else None
         o["body"] = None if step.get("head") else body
         o["clen"] = _h(res, "Content-Length")
     if kind == "tags" and st == 200 and not step.get("head"):
@@ -618,7 +618,7 @@ def canon_model(step, res, sids):
     st = res["status"]
     b = res["body"]
     if kind in ("blobget", "mget") and st in (200, 206):
-        o["ctype"] = res["ctype"]
+        o["ctype"] = res["ctype"] if not step.get("noctype") else None
         if b["kind"] == "blob":
             data = b["data"].encode("latin-1")
             full = len(data)
